@@ -18,7 +18,7 @@ def is_id(s):
     return type(s).__name__ == "BlochSphereRotation" and abs(float(s.angle)) < 1e-7 and abs(float(s.phase)) < 1e-7
 
 
-def oracle_c10(ctx, suite, case, ev, eq):
+def oracle_c10(ctx, suite, case, ev, eq, always_reparse=False):
     if ev["err"] is not None:
         return          # "never fails" is C01's concern
     dec = case["pass"][1]
@@ -54,7 +54,7 @@ def oracle_c10(ctx, suite, case, ev, eq):
                 ctx.oracle_fail(suite, case, f"identity gate emitted: {s!r}", eq)
                 return
     # ... that can be written and re-parsed
-    if ctx.rng.random() < 0.15 and case["nq"] <= 64:
+    if (always_reparse or ctx.rng.random() < 0.15) and case["nq"] <= 64:      # sampled in a run, always in a replay
         from opensquirrel.circuit import Circuit
 
         c = ev["circuit"]
@@ -138,40 +138,44 @@ def pipeline_cases(ctx):
 
 
 def run_pipeline(ctx):
-    from opensquirrel.circuit import Circuit
-
     cases = pipeline_cases(ctx)
     ctx.suite("pipeline_cnot_merge_mckay", cases=len(cases))
     for case in cases:
-        ctx.seen(case)
-        c = gen.build_circuit(case["nq"], 0, case["specs"])
-        before = list(c.ir.statements)
-        try:
-            c.decompose(implrun.decomposer("cnot"))
-            c.merge_single_qubit_gates()
-            c.decompose(implrun.decomposer("mckay"))
-        except Exception as e:  # noqa: BLE001
-            ctx.bump("pipeline_raised")
-            continue        # failures of decomposition are C01's concern (known finding F3)
-        bad = None
-        for s in c.ir.statements:
-            cls = type(s).__name__
-            if cls == "BlochSphereRotation" and name_of(s) not in ("Rz", "X90"):
-                bad = f"single-qubit gate outside {{Rz, X90}} after the pipeline: {s!r}"
-            elif cls == "ControlledGate" and type(s.target_gate).__name__ == "BlochSphereRotation" and name_of(s) != "CNOT":
-                bad = f"controlled gate other than CNOT after the pipeline: {s!r}"
-            elif oracles.is_gate(s) and is_id(s):
-                bad = "identity gate emitted"
-        if bad:
-            ctx.oracle_fail("pipeline", {**case, "pass": ["pipeline"]}, bad, None)
-            continue
-        try:
-            txt = str(c)
-            c2 = Circuit.from_string(txt)
-            if len(c2.ir.statements) != len(c.ir.statements):
-                ctx.oracle_fail("pipeline", {**case, "pass": ["pipeline"]}, "written result re-parses to a different number of statements", None)
-        except Exception as e:  # noqa: BLE001
-            ctx.oracle_fail("pipeline", {**case, "pass": ["pipeline"]}, f"written result does not re-parse: {type(e).__name__}: {str(e)[:200]}", None)
+        check_pipeline(ctx, case)
+
+
+def check_pipeline(ctx, case):
+    from opensquirrel.circuit import Circuit
+
+    ctx.seen(case)
+    rec = {**case, "pass": ["pipeline"]}
+    c = gen.build_circuit(case["nq"], 0, case["specs"])
+    try:
+        c.decompose(implrun.decomposer("cnot"))
+        c.merge_single_qubit_gates()
+        c.decompose(implrun.decomposer("mckay"))
+    except Exception as e:  # noqa: BLE001
+        ctx.bump("pipeline_raised")
+        return        # failures of decomposition are C01's concern (known finding F3)
+    bad = None
+    for s in c.ir.statements:
+        cls = type(s).__name__
+        if cls == "BlochSphereRotation" and name_of(s) not in ("Rz", "X90"):
+            bad = f"single-qubit gate outside {{Rz, X90}} after the pipeline: {s!r}"
+        elif cls == "ControlledGate" and type(s.target_gate).__name__ == "BlochSphereRotation" and name_of(s) != "CNOT":
+            bad = f"controlled gate other than CNOT after the pipeline: {s!r}"
+        elif oracles.is_gate(s) and is_id(s):
+            bad = "identity gate emitted"
+    if bad:
+        ctx.oracle_fail("pipeline", rec, bad, None)
+        return
+    try:
+        txt = str(c)
+        c2 = Circuit.from_string(txt)
+        if len(c2.ir.statements) != len(c.ir.statements):
+            ctx.oracle_fail("pipeline", rec, "written result re-parses to a different number of statements", None)
+    except Exception as e:  # noqa: BLE001
+        ctx.oracle_fail("pipeline", rec, f"written result does not re-parse: {type(e).__name__}: {str(e)[:200]}", None)
 
 
 def run(ctx):
@@ -182,11 +186,16 @@ def run(ctx):
 
 
 def replay(ctx, payload):
-    case = payload.get("case") or (payload.get("first_disagreement") or {}).get("case")
-    if case.get("pass", [None])[0] != "decompose":
-        return {"fails": payload.get("kind") == "oracle", "note": "pipeline case: re-run run_pipeline"}
-    ev = dc.evaluate(case)
-    eqs = dc.compare_with_model(ctx, "replay", [case], [ev])
-    oracle_c10(ctx, "replay", case, ev, eqs[0])
-    return {"impl_error": ev["err"], "post": ev["post"], "impl_eq_model": eqs[0], "oracle_failures": ctx.oracle_failures,
-            "fails": bool(ctx.oracle_failures)}
+    from harness import framework
+
+    suite, case = framework.replay_target(payload)
+    if case is None:
+        return framework.replay_nothing(payload)
+    if case.get("pass", ["pipeline"])[0] == "pipeline":
+        check_pipeline(ctx, {k: v for k, v in case.items() if k != "pass"})
+        return framework.replay_result(ctx)
+
+    def oracle(*a):
+        oracle_c10(*a, always_reparse=True)
+    ev, eq, history = dc.replay_case(ctx, suite or "replay", case, oracle)
+    return framework.replay_result(ctx, impl_error=ev["err"], post=ev["post"], impl_eq_model=eq, history=history)
